@@ -35,7 +35,7 @@ P_PUBLIC = r'^auto cnl::_impl::operator(?:[-+*/%&|^]|<<|>>|==|!=|<=|>=|<|>)<cnl:
 P_PUBLIC_ANY = r'^auto cnl::_impl::operator(?:==|!=|<=|>=|<|>)<'
 P_WRAPOP = r'^cnl::custom_operator<cnl::_impl::\w+_op, cnl::op_value<cnl::_impl::wrapper<.*>::operator\(\)\(cnl::_impl::wrapper<'
 P_PLAIN = r'cnl::_impl::\w+_op::operator\(\)<[a-z_0-9 ]+, [a-z_0-9 ]+>\('
-P_TAGOP = r'^cnl::custom_operator<cnl::_impl::\w+_op, cnl::op_value<(?:unsigned |signed )?\w+, cnl::.*>::operator\(\)\((?:unsigned |signed )?\w+ const&'
+P_TAGOP = r'^cnl::custom_operator<cnl::_impl::(?!convert_op)\w+_op, cnl::op_value<(?:unsigned |signed )?\w+, cnl::.*>::operator\(\)\((?:unsigned |signed )?\w+ const&'
 
 
 def sem_contract(op, L, R, first):
@@ -115,6 +115,9 @@ def plan(tier):
                 jobs.append(Job('%s.L3.%s' % (PROP, tag), kname, P_PUBLIC, c0, replace=[(P_WRAPOP, c1)], layer=3, **light, **absm))
                 jobs.append(Job('%s.L2.%s' % (PROP, tag), kname, P_WRAPOP, c1,
                                 replace=[(P_WRAPOP, c1), (P_TAGOP, c1), (P_PLAIN, c1)], layer=2, **light, **absm))
+                # a tag-level operator with a body of its own does not exist for native tags on the pinned tree (they inherit the plain
+                # operator); should one appear, it is proved here rather than assumed by the L2 replacement
+                jobs.append(Job('%s.L1t.%s' % (PROP, tag), kname, P_TAGOP, c1, replace=[(P_PLAIN, c1)], layer=1, optional=True, **light, **absm))
                 if not skip_leaf:
                     jobs.append(Job('%s.L1.%s' % (PROP, tag), kname, P_PLAIN, c1, layer=1, optional=True, **light, **absm))
                 n_inst += 1
